@@ -93,6 +93,37 @@ func c07CheckTable(t codon.Table, id int, pat string, W sparse, Elig map[string]
 			}
 		}
 	}
+	// the draws of one Optimize call do not depend on what another package did to the process-wide random source just
+	// before: random.ProteinSequence(n, seed) re-seeds it with the caller's seed, Optimize right after it is still random
+	for aa, raw := range cs.Elig {
+		var el []string
+		_ = json.Unmarshal(raw, &el)
+		if len(el) < 2 {
+			continue
+		}
+		tot := 0
+		for _, cd := range el {
+			tot += cs.W.at(cd)
+		}
+		cnt := map[string]int{}
+		rounds := 1500
+		for r := 0; r < rounds; r++ {
+			_, _ = polyrandom.ProteinSequence(8, 5)
+			dna, errs := safeOptimize(aa, t)
+			if errs != "" || len(dna) != 3 {
+				return bad("table %d/%s: Optimize(%q) after random.ProteinSequence: %s %q", cs.Id, cs.Pat, aa, errs, dna)
+			}
+			cnt[dna]++
+		}
+		for _, cd := range el {
+			pr := float64(cs.W.at(cd)) / float64(tot)
+			z := (float64(cnt[cd]) - float64(rounds)*pr) / math.Sqrt(float64(rounds)*pr*(1-pr))
+			if math.Abs(z) > 6 {
+				return bad("table %d/%s residue %q: in %d calls of Optimize, each right after random.ProteinSequence(8, 5), codon %s was drawn %d times, weight share %.3f (z = %.1f)", cs.Id, cs.Pat, aa, rounds, cd, cnt[cd], pr, z)
+			}
+		}
+		break // one residue per table is enough
+	}
 	// unencodable residues must be rejected with an error
 	probe := append(dead, "J", "k", "@")
 	if _, has := cs.Elig["*"]; !has {
